@@ -107,14 +107,8 @@ class C34(PropBase):
             obj[f] = rng.choice([5, None, [1], {"a": 1}, 1.5, True]) if f not in ("linenr", "column", "cwe") else rng.choice(["7", None, [1], 2.5, {"a": 1}])
         return json.dumps(obj), "wrong-type", None
 
-    def generate(self, seed, tier, idx):
-        rng = Rng(seed)
-        proj = gen.gen_project(rng, n_units=rng.randint(1, 4), inline=0.1, max_atoms=2, wp=False, headers=0.3, cfg_blocks=0.0, lang_mix=rng.chance(0.3))
-        units = proj["units"]
-        addons = ["adda"] + (["addb"] if rng.chance(0.4) else [])
-        ctu = {"adda": rng.chance(0.7), "addb": rng.chance(0.3)}
+    def _make_plan(self, rng, addons, units, ctu, n):
         plan = {}
-        n = 0
         for a in addons:
             plan[a] = {}
             for u in units:
@@ -146,6 +140,15 @@ class C34(PropBase):
                     plan[a]["*ctu*"].update({"lines": [t], "kinds": [k], "exps": [e]})
                 if rng.chance(0.1):
                     plan[a]["*ctu*"]["exit"] = 3
+        return plan
+
+    def generate(self, seed, tier, idx):
+        rng = Rng(seed)
+        proj = gen.gen_project(rng, n_units=rng.randint(1, 4), inline=0.1, max_atoms=2, wp=False, headers=0.3, cfg_blocks=0.0, lang_mix=rng.chance(0.3))
+        units = proj["units"]
+        addons = ["adda"] + (["addb"] if rng.chance(0.4) else [])
+        ctu = {"adda": rng.chance(0.7), "addb": rng.chance(0.3)}
+        plan = self._make_plan(rng, addons, units, ctu, 0)
         opts = {"--enable": rng.choice(["--enable=style", "--enable=warning,performance", "--enable=all", "--enable=information", "--enable=style,portability", ""])}
         if not opts["--enable"]:
             del opts["--enable"]
@@ -160,8 +163,27 @@ class C34(PropBase):
         # hash order of the argument strings. The spelling of the (relative) path is therefore part of the scenario - it is
         # the only handle on that order - and must not depend on the scratch directory.
         apath = {a: rng.below(len(APATHS)) for a in ("adda", "addb")}
-        return {"tree": proj["tree"], "units": units, "langs": proj["langs"], "opts": opts, "suppr": suppr, "addons": addons, "ctu": ctu,
-                "plan": plan, "runs": runs, "bd": bd, "apath": apath}
+        scn = {"tree": proj["tree"], "units": units, "langs": proj["langs"], "opts": opts, "suppr": suppr, "addons": addons, "ctu": ctu,
+               "plan": plan, "runs": runs, "bd": bd, "apath": apath, "history": None}
+        if bd and rng.chance(0.5):
+            # second phase on the same build dirs: some units are edited (re-analysed, new addon scripts), the others are served
+            # from the cache together with the addon findings and summaries of the first phase
+            scn["history"] = {"edit_units": rng.sample(units, rng.randint(1, len(units))), "plan2": self._make_plan(rng, addons, units, ctu, 5000)}
+            # make the interesting meeting likely: a summary given in the first phase, and an invocation that goes wrong in the
+            # second phase for the same (edited) unit
+            n = 9100
+            for a in addons:
+                for u in units:
+                    n += 1
+                    sc = plan[a][u]
+                    if ctu[a] and rng.chance(0.6) and not sc.get("exit") and not sc.get("signal") and sc.get("tail") is None:
+                        e = {"summary": "sum%d" % n, "data": [n, u]}
+                        sc["lines"].append(json.dumps(e)); sc["kinds"].append("summary"); sc["exps"].append(e)
+                    sc2 = scn["history"]["plan2"][a][u]
+                    if rng.chance(0.35):
+                        bad = {"file": u, "linenr": rng.choice(["seven", None, [1]]), "column": 1, "severity": "error", "message": "typed %d" % n, "addon": a, "errorId": "t"}
+                        sc2["lines"].append(json.dumps(bad)); sc2["kinds"].append("wrong-type"); sc2["exps"].append(None)
+        return scn
 
     # ------------------------------------------------------------------ reference model
     @staticmethod
@@ -204,84 +226,130 @@ class C34(PropBase):
             endings = sorted(set(("signal" if sc.get("signal") else "exit%d" % sc.get("exit", 0) if sc.get("exit") else "midline" if sc.get("tail") else "ok")
                                  for a in scn["addons"] for u, sc in scn["plan"][a].items()))
             out.states.append("%s|%s|%s|%s" % (",".join(kinds_all), ",".join(endings), run["exec"], bool(b)))
-            c = crashed(r)
-            if c or not r.xml_ok:
-                out.violate("cppcheck-crash", "cppcheck %s on addon output%s" % ((c or "malformed output").split(":")[0], crash_text(r)),
-                            [how, c or "XML output not well formed", "line kinds in scripts: %s; endings: %s" % (kinds_all, endings)] + r.stderr.strip().split("\n")[-6:],
-                            ids=(c or "malformed").split(":")[0])
-                continue
-            fs = [f for f in r.findings if not_meta(f)]
-            addon_fs = [f for f in fs if any(f.id.startswith(a + "-") for a in scn["addons"])]
-            internal = [f for f in fs if f.id == "internalError"]
-            out.nontrivial = True
-            expected_echo = {a: [] for a in scn["addons"]}
-            for a in scn["addons"]:
-                for u in units:
-                    sc = scn["plan"][a][u]
-                    kinds = sc.get("kinds", [])
-                    failing = bool(sc.get("exit")) or bool(sc.get("signal")) or "nonjson" in kinds or (sc.get("tail") is not None and not sc["tail"].startswith("{"))
-                    # An exception raised while converting one addon's objects ends the addon phase of that *unit* (reported as
-                    # internalError): a malformed-typed line of any addon makes the whole unit's relaying ambiguous.
-                    ambiguous = any(any(k in ("wrong-type", "missing-fields") for k in scn["plan"][a2][u].get("kinds", [])) or scn["plan"][a2][u].get("tail") is not None
-                                    for a2 in scn["addons"])
-                    # ... and an addon that comes later in the (hash) order is then not invoked at all for that unit: a failing
-                    # script of addon a is only played if no *other* addon's malformed-typed line ended the phase before it.
-                    others_raise = any(a2 != a and any(k in ("wrong-type", "missing-fields") for k in scn["plan"][a2][u].get("kinds", []))
-                                       for a2 in scn["addons"])
-                    mine = [f for f in addon_fs if f.id.startswith(a + "-") and f.id != a + "-echo" and f.file0 == u]
-                    ie = [f for f in internal if f.locs and f.locs[0][0] == u and (("--name=%s " % a) in f[5] or ("'%s.json'" % a) in f[5] or ("--name=%s " % a) in f.msg or ("'%s.json'" % a) in f.msg)]
-                    if failing:
-                        if not ie and others_raise and any(f.locs and f.locs[0][0] == u for f in internal):
-                            # the unit did end in an internal error (raised while another addon's objects were converted); whether
-                            # addon a was invoked before that depends on the unspecified addon order
-                            out.probe("failing_addon_after_raising_addon")
-                        elif not ie:
-                            out.violate("no-internal-error", "failing addon invocation not reported as internalError (%s)" % ("exit status" if sc.get("exit") else "signal" if sc.get("signal") else "non-JSON output"),
-                                        ["%s: addon %s on %s fails (exit=%s signal=%s kinds=%s) but no internalError names %s" % (how, a, u, sc.get("exit"), sc.get("signal"), kinds, u)], ids="noie")
-                        if mine:
-                            out.violate("findings-from-failed-addon", "findings relayed from a failing addon invocation", ["%s: addon %s on %s: %s" % (how, a, u, [f.short() for f in mine][:4])], ids="failrelay")
-                        continue
-                    if ambiguous:
-                        continue   # either outcome allowed by the statement; "never a crash" was checked above
-                    # clean invocation: exact relaying
-                    exp = []
-                    for k, e in zip(kinds, sc.get("exps", [])):
-                        if k == "finding" and e["sev"] in en:
-                            primary = e["locs"][-1]
-                            if self._suppressed(scn.get("suppr", []), e["id"], primary[0]):
-                                continue
-                            msg = e["msg"].split("\n")[0]
-                            locs = tuple((l[0], str(l[1]), str(l[2]), fix_invalid(l[3])) for l in reversed(e["locs"]))
-                            exp.append((e["id"], e["sev"], fix_invalid(msg), locs))
-                        if k == "summary" and scn["ctu"][a]:
-                            expected_echo[a].append(e)
-                    got = [(f.id, f.severity, f.msg, f.locs) for f in mine]
-                    if sorted(set(exp)) != sorted(set(got)):
-                        miss = [x for x in sorted(set(exp)) if x not in got][:3]
-                        extra = [x for x in sorted(set(got)) if x not in exp][:3]
-                        out.violate("relay-differs", "%s findings of a clean addon invocation (%s%s)" % ("missing" if miss and not extra else "altered/extra", run["exec"], ", build dir" if b else ""),
-                                    ["%s: addon %s on %s" % (how, a, u)] + ["expected but absent: %s" % (str(m)[:300],) for m in miss] + ["reported but not expected: %s" % (str(x)[:300],) for x in extra],
-                                    ids="relay" + ("-" if miss and not extra else "+"))
-                    if ie:
-                        out.violate("spurious-internal-error", "internalError for a clean addon invocation", ["%s: addon %s on %s: %s" % (how, a, u, ie[0].short())], ids="spurious")
-                # summaries forwarded to the whole-program invocation
-                if scn["ctu"][a] and scn["plan"][a].get("*ctu*", {}).get("exit", 0) == 0 and not scn["plan"][a]["*ctu*"].get("kinds"):
-                    echoes = sorted(f.msg for f in addon_fs if f.id == a + "-echo")
-                    # the ctu-info handed to a whole-program addon holds the summaries of every addon
-                    want = []
-                    for a2 in scn["addons"]:
-                        for u in units:
-                            sc2 = scn["plan"][a2][u]
-                            want += [fix_invalid("summary-seen " + json.dumps(e, sort_keys=True)) for k, e in zip(sc2.get("kinds", []), sc2.get("exps", [])) if k == "summary"]
-                    want.sort()
-                    all_clean = all(not (scn["plan"][a2][u].get("exit") or scn["plan"][a2][u].get("signal") or scn["plan"][a2][u].get("tail") is not None or
-                                         any(k in ("nonjson", "wrong-type", "missing-fields") for k in scn["plan"][a2][u].get("kinds", []))) for u in units for a2 in scn["addons"])
-                    if all_clean and self._suppressed(scn.get("suppr", []), a + "-echo", "ctu") is False and sorted(set(echoes)) != sorted(set(want)):
-                        out.violate("summaries-not-forwarded", "addon summaries reaching whole-program analysis differ (%s%s)" % (run["exec"], ", build dir" if b else ""),
-                                    ["%s: addon %s" % (how, a), "expected: %s" % want[:4], "got: %s" % echoes[:4]], ids="summ")
+            self._judge(scn, scn["plan"], r, run, b, out, units, how, kinds_all, endings, en, units, None)
+        hist = scn.get("history")
+        if hist and scn.get("bd"):
+            edited = [u for u in hist["edit_units"] if u in units]
+            for u in edited:
+                with open(os.path.join(tree_dir, u), "a") as f:
+                    f.write("int edited_%d(int a){ return a+%d; }\n" % (units.index(u), units.index(u)))
+            plan2 = hist["plan2"]
+            with open(planp, "w") as f:
+                json.dump({a: {u: {k: v for k, v in sc.items() if k in ("lines", "exit", "signal", "tail", "echo")} for u, sc in d.items()} for a, d in plan2.items()}, f)
+            for ri, run in enumerate(scn["runs"]):
+                b, roots = ["--cppcheck-build-dir=../bd%d" % ri], ["../bd%d" % ri]
+                args = STD + oargs + aargs + b + exec_args(run) + units
+                r = core.run_sim("asan", tree_dir, args, plan=plan_of(run), roots=roots, workdir=wd, tag="run%dp2" % ri, env_extra={"VERIF_ADDON_PLAN": planp}, timeout=300)
+                out.account(r)
+                how = " ".join(exec_args(run)) + " +bd, second run after editing %s" % edited
+                kinds_all = sorted(set(k for a in scn["addons"] for u in edited for k in plan2[a][u].get("kinds", [])))
+                endings = sorted(set(("signal" if sc.get("signal") else "exit%d" % sc.get("exit", 0) if sc.get("exit") else "midline" if sc.get("tail") else "ok")
+                                     for a in scn["addons"] for u, sc in plan2[a].items() if u in edited or u == "*ctu*"))
+                out.states.append("%s|%s|%s|phase2" % (",".join(kinds_all), ",".join(endings), run["exec"]))
+                out.probe("second_phase_runs")
+                self._judge(scn, plan2, r, run, b, out, units, how, kinds_all, endings, en, edited, scn["plan"])
         return out
 
+    def _judge(self, scn, plan, r, run, b, out, units, how, kinds_all, endings, en, relay_units, plan_prev):
+        """Oracle for one run. plan: the addon scripts played in this run. relay_units: the units (re)analysed in this run, for
+        which the per-invocation relaying rules are checked. plan_prev: scripts of the run that filled the cache (second phase):
+        the units outside relay_units are cache hits and keep the summaries they were given then."""
+        scn = dict(scn); scn["plan"] = plan
+        all_units = units
+        c = crashed(r)
+        if c or not r.xml_ok:
+            out.violate("cppcheck-crash", "cppcheck %s on addon output%s" % ((c or "malformed output").split(":")[0], crash_text(r)),
+                        [how, c or "XML output not well formed", "line kinds in scripts: %s; endings: %s" % (kinds_all, endings)] + r.stderr.strip().split("\n")[-6:],
+                        ids=(c or "malformed").split(":")[0])
+            return
+        fs = [f for f in r.findings if not_meta(f)]
+        addon_fs = [f for f in fs if any(f.id.startswith(a + "-") for a in scn["addons"])]
+        internal = [f for f in fs if f.id == "internalError"]
+        out.nontrivial = True
+        expected_echo = {a: [] for a in scn["addons"]}
+        for a in scn["addons"]:
+            for u in relay_units:
+                sc = scn["plan"][a][u]
+                kinds = sc.get("kinds", [])
+                failing = bool(sc.get("exit")) or bool(sc.get("signal")) or "nonjson" in kinds or (sc.get("tail") is not None and not sc["tail"].startswith("{"))
+                # An exception raised while converting one addon's objects ends the addon phase of that *unit* (reported as
+                # internalError): a malformed-typed line of any addon makes the whole unit's relaying ambiguous.
+                ambiguous = any(any(k in ("wrong-type", "missing-fields") for k in scn["plan"][a2][u].get("kinds", [])) or scn["plan"][a2][u].get("tail") is not None
+                                for a2 in scn["addons"])
+                # ... and an addon that comes later in the (hash) order is then not invoked at all for that unit: a failing
+                # script of addon a is only played if no *other* addon's malformed-typed line ended the phase before it.
+                others_raise = any(a2 != a and any(k in ("wrong-type", "missing-fields") for k in scn["plan"][a2][u].get("kinds", []))
+                                   for a2 in scn["addons"])
+                mine = [f for f in addon_fs if f.id.startswith(a + "-") and f.id != a + "-echo" and f.file0 == u]
+                ie = [f for f in internal if f.locs and f.locs[0][0] == u and (("--name=%s " % a) in f[5] or ("'%s.json'" % a) in f[5] or ("--name=%s " % a) in f.msg or ("'%s.json'" % a) in f.msg)]
+                if failing:
+                    if not ie and others_raise and any(f.locs and f.locs[0][0] == u for f in internal):
+                        # the unit did end in an internal error (raised while another addon's objects were converted); whether
+                        # addon a was invoked before that depends on the unspecified addon order
+                        out.probe("failing_addon_after_raising_addon")
+                    elif not ie:
+                        out.violate("no-internal-error", "failing addon invocation not reported as internalError (%s)" % ("exit status" if sc.get("exit") else "signal" if sc.get("signal") else "non-JSON output"),
+                                    ["%s: addon %s on %s fails (exit=%s signal=%s kinds=%s) but no internalError names %s" % (how, a, u, sc.get("exit"), sc.get("signal"), kinds, u)], ids="noie")
+                    if mine:
+                        out.violate("findings-from-failed-addon", "findings relayed from a failing addon invocation", ["%s: addon %s on %s: %s" % (how, a, u, [f.short() for f in mine][:4])], ids="failrelay")
+                    continue
+                if ambiguous:
+                    continue   # either outcome allowed by the statement; "never a crash" was checked above
+                # clean invocation: exact relaying
+                exp = []
+                for k, e in zip(kinds, sc.get("exps", [])):
+                    if k == "finding" and e["sev"] in en:
+                        primary = e["locs"][-1]
+                        if self._suppressed(scn.get("suppr", []), e["id"], primary[0]):
+                            continue
+                        msg = e["msg"].split("\n")[0]
+                        locs = tuple((l[0], str(l[1]), str(l[2]), fix_invalid(l[3])) for l in reversed(e["locs"]))
+                        exp.append((e["id"], e["sev"], fix_invalid(msg), locs))
+                    if k == "summary" and scn["ctu"][a]:
+                        expected_echo[a].append(e)
+                got = [(f.id, f.severity, f.msg, f.locs) for f in mine]
+                if sorted(set(exp)) != sorted(set(got)):
+                    miss = [x for x in sorted(set(exp)) if x not in got][:3]
+                    extra = [x for x in sorted(set(got)) if x not in exp][:3]
+                    out.violate("relay-differs", "%s findings of a clean addon invocation (%s%s)" % ("missing" if miss and not extra else "altered/extra", run["exec"], ", build dir" if b else ""),
+                                ["%s: addon %s on %s" % (how, a, u)] + ["expected but absent: %s" % (str(m)[:300],) for m in miss] + ["reported but not expected: %s" % (str(x)[:300],) for x in extra],
+                                ids="relay" + ("-" if miss and not extra else "+"))
+                if ie:
+                    out.violate("spurious-internal-error", "internalError for a clean addon invocation", ["%s: addon %s on %s: %s" % (how, a, u, ie[0].short())], ids="spurious")
+            # summaries forwarded to the whole-program invocation
+            if scn["ctu"][a] and scn["plan"][a].get("*ctu*", {}).get("exit", 0) == 0 and not scn["plan"][a]["*ctu*"].get("kinds"):
+                echoes = sorted(f.msg for f in addon_fs if f.id == a + "-echo")
+
+                def summaries(pl, us):
+                    # the ctu-info handed to a whole-program addon holds the summaries of every addon
+                    w = []
+                    for a2 in scn["addons"]:
+                        for u in us:
+                            sc2 = pl[a2][u]
+                            w += [fix_invalid("summary-seen " + json.dumps(e, sort_keys=True)) for k, e in zip(sc2.get("kinds", []), sc2.get("exps", [])) if k == "summary"]
+                    return w
+
+                def clean(pl, us):
+                    return all(not (pl[a2][u].get("exit") or pl[a2][u].get("signal") or pl[a2][u].get("tail") is not None or
+                                    any(k in ("nonjson", "wrong-type", "missing-fields") for k in pl[a2][u].get("kinds", []))) for u in us for a2 in scn["addons"])
+                cached_units = [u for u in all_units if u not in relay_units]
+                want = sorted(summaries(plan, relay_units) + (summaries(plan_prev, cached_units) if plan_prev else []))
+                all_clean = clean(plan, relay_units) and (not plan_prev or clean(plan_prev, cached_units))
+                # whatever happened to the invocations: a summary that reaches the whole-program phase was printed by an addon in
+                # this run, or (second phase) belongs to a unit that was not edited and is served from the cache
+                allowed = set(summaries(plan, all_units) + (summaries(plan_prev, cached_units) if plan_prev else []))
+                stale = [e for e in echoes if e not in allowed]
+                if stale:
+                    out.violate("summaries-stale", "whole-program analysis receives addon summaries that no addon gave for the current files (%s)" % run["exec"],
+                                ["%s: addon %s" % (how, a), "not given in this run (nor cached for an unedited unit): %s" % stale[:4]], ids="stale")
+                elif all_clean and self._suppressed(scn.get("suppr", []), a + "-echo", "ctu") is False and sorted(set(echoes)) != sorted(set(want)):
+                    out.violate("summaries-not-forwarded", "addon summaries reaching whole-program analysis differ (%s%s%s)" % (run["exec"], ", build dir" if b else "", ", second run" if plan_prev else ""),
+                                ["%s: addon %s" % (how, a), "expected: %s" % want[:4], "got: %s" % echoes[:4]], ids="summ")
+
     def candidates(self, scn):
+        if scn.get("history"):
+            c = copy.deepcopy(scn); c["history"] = None
+            yield c
         if len(scn["runs"]) > 1:
             for r in scn["runs"]:
                 c = copy.deepcopy(scn); c["runs"] = [r]
@@ -324,6 +392,7 @@ class C34(PropBase):
 
     def describe(self, scn):
         return {"units": scn["units"], "opts": gen.flatten_opts(scn.get("opts", {})) + scn.get("suppr", []), "build_dir": scn.get("bd"),
+                "second_phase_edits": (scn.get("history") or {}).get("edit_units"),
                 "runs": [" ".join(exec_args(r)) for r in scn["runs"]], "ctu": scn["ctu"],
                 "scripts": {a: {u: {"kinds": sc.get("kinds"), "exit": sc.get("exit"), "signal": sc.get("signal"), "tail": sc.get("tail"),
                                     "lines": [l[:160] for l in sc.get("lines", [])]} for u, sc in d.items()} for a, d in scn["plan"].items() if a in scn["addons"]}}
